@@ -118,9 +118,9 @@ def work_c17(prop, tier, seed, widx, nworkers):
     for i in range(nprog):
         base = simplify_for_real(gen.gen_program(rng, real_profile()))
         for _try in range(20):
-            # families with a known hang (KF-REC2, KF-CANDSHARED) only cost wall-clock watchdog time on a real loop;
+            # families with a known hang (KF-REC2) only cost wall-clock watchdog time on a real loop;
             # they are judged on the virtual loop, where a hang is decided exactly
-            if not set(base.get('tags', [])) & {'rec_two_scopes', 'candidate_shared', 'rec_outside_consumer'}:
+            if not set(base.get('tags', [])) & {'rec_two_scopes', 'rec_outside_consumer'}:
                 break
             base = simplify_for_real(gen.gen_program(rng, real_profile()))
         variants = [assign_modes(base, rng, how) for how in ('async', 'thread', 'inline', 'process', 'random', 'random', 'thread_tag', 'custom_tag')]
